@@ -597,10 +597,21 @@ Proof.
       destruct (c_visible_at (e_chain st x) (st_epoch st)); destruct (d_edge (s_comm sp) x); cbn in He;
         try reflexivity; destruct (MEv st (tm_epoch st) SYSTEM x); discriminate. }
     rewrite F1, F2. apply out_eqb_refl.
+  - (* FreshLabelScan *)
+    pose proof (first_class_zero _ _ Hc) as Hz. unfold scan, nodes_by_label, label_ids_of. rewrite filter_filter.
+    assert (F : filter (fun n => memz n (l_index st l) && c_visible_to (n_chain st n) 0 SYSTEM) (range (n_next st))
+                = filter (fun n => has_label (s_comm sp) n l) (range (n_next st))).
+    { apply filter_ext_in'. intros n Hr. specialize (Hz n Hr). cbn beta zeta in Hz. unfold Mv in Hz.
+      destruct (Bool.eqb (memz n (l_index st l) && c_visible_to (n_chain st n) 0 SYSTEM) (has_label (s_comm sp) n l)) eqn:E.
+      - apply bool_eqb_eq. exact E.
+      - exfalso.
+        destruct (scan_class st (s_comm sp) (tm_epoch st) SYSTEM (SelLabel l) n =? 0) eqn:E2; [discriminate|].
+        apply Z.eqb_neq in E2. contradiction. }
+    rewrite F, isort_ids. apply out_eqb_refl.
 Qed.
 
 (** ** every class is a number in 0..6 *)
-Definition okc (c : Z) : Prop := 0 <= c <= 6.
+Definition okc (c : Z) : Prop := 0 <= c <= 7.
 Lemma first_class_okc : forall f l, (forall x, okc (f x)) -> okc (first_class f l).
 Proof.
   intros f l H. induction l as [|x r IH]; cbn [first_class]; [unfold okc; lia|].
@@ -613,21 +624,22 @@ Proof.
 Qed.
 Lemma point_class_okc : forall a b c, okc (point_class a b c).
 Proof. intros [] [] []; cbn; unfold okc; lia. Qed.
-Lemma fold_class_okc : forall {A} (g : A -> bool) (rc : A -> Z) l acc, (forall r, okc (rc r)) -> okc acc ->
-  okc (fold_left (fun acc r => if negb (acc =? 0) then acc else if g r then rc r else 0) l acc).
+Lemma slot_class_okc : forall st d e t ty o a x, okc (slot_class st d e t ty o a x).
 Proof.
-  intros A g rc l. induction l as [|r l IH]; intros acc H Ha; cbn [fold_left]; [exact Ha|].
-  apply IH; [exact H|]. destruct (negb (acc =? 0)); [exact Ha|]. destruct (g r); [apply H|unfold okc; lia].
+  intros. unfold slot_class, okc. destruct (list_eqb eqb3 _ _); [lia|].
+  destruct (m_slot st e t ty o a x) as [|[[? ?] b] ?].
+  - destruct (e_rec st x) as [[s0 t0] y0].
+    repeat match goal with |- context [if ?b then _ else _] => destruct b end; lia.
+  - destruct (d_edge d x); [destruct (in_db d b)|]; lia.
 Qed.
-Lemma row_class_model_only_okc : forall st d r, okc (row_class_model_only st d r).
+Lemma expand_class_okc : forall st d e t m dr ty nb eb, okc (expand_class st d e t m dr ty nb eb).
 Proof.
-  intros st d [[a x] b]. unfold row_class_model_only, okc. destruct (d_edge d x); [|lia].
-  repeat match goal with |- context [if ?b then _ else _] => destruct b end; lia.
-Qed.
-Lemma row_class_ideal_only_okc : forall st e t dr ty r, okc (row_class_ideal_only st e t dr ty r).
-Proof.
-  intros st e t dr ty [[a x] b]. unfold row_class_ideal_only, okc.
-  repeat match goal with |- context [if ?b then _ else _] => destruct b end; lia.
+  intros. unfold expand_class. apply first_class_okc. intros a. destruct (sp_match d m a); [|unfold okc; lia].
+  apply first_class_okc. intros x. cbn zeta.
+  destruct dr.
+  - pose proof (slot_class_okc st d e t ty true a x) as H. destruct (negb (slot_class st d e t ty true a x =? 0)); [exact H|unfold okc; lia].
+  - cbn. apply slot_class_okc.
+  - pose proof (slot_class_okc st d e t ty true a x) as H. destruct (negb (slot_class st d e t ty true a x =? 0)); [exact H|apply slot_class_okc].
 Qed.
 
 Lemma classify_read_okc : forall st sp s k, okc (classify_read st sp s k).
@@ -640,10 +652,7 @@ Proof.
     repeat match goal with |- context [if ?b then _ else _] => destruct b end; lia.
   - (* Expand *)
     match goal with |- okc (if negb (?c =? 0) then _ else _) => assert (Hc : okc c) by (apply first_class_okc; intros; apply scan_class_okc); destruct (negb (c =? 0)); [exact Hc|] end.
-    match goal with |- okc (if negb (?c =? 0) then _ else _) =>
-      assert (Hc1 : okc c) by (apply (fold_class_okc (fun r => Nat.ltb _ _) (row_class_model_only st _)); [intros; apply row_class_model_only_okc|unfold okc; lia]);
-      destruct (negb (c =? 0)); [exact Hc1|] end.
-    apply (fold_class_okc (fun r => Nat.ltb _ _) (row_class_ideal_only st e t d ty)); [intros; apply row_class_ideal_only_okc|unfold okc; lia].
+    apply expand_class_okc.
   - (* TripleQ *) destruct (sess st s); unfold okc; lia.
   - (* TripleApi *) destruct (sess st s); unfold okc; lia.
   - (* DbCounts *)
@@ -653,6 +662,11 @@ Proof.
       repeat match goal with |- context [if ?b then _ else _] => destruct b end; lia.
     + apply first_class_okc. intros n. unfold okc.
       repeat match goal with |- context [if ?b then _ else _] => destruct b end; lia.
+  - (* FreshLabelScan *)
+    apply first_class_okc. intros n. cbn zeta.
+    destruct (Bool.eqb _ _); [unfold okc; lia|].
+    pose proof (scan_class_okc st (s_comm sp) (tm_epoch st) SYSTEM (SelLabel l) n) as Ho.
+    destruct (scan_class st (s_comm sp) (tm_epoch st) SYSTEM (SelLabel l) n =? 0); [unfold okc; lia|exact Ho].
 Qed.
 
 Lemma mut_class_okc : forall st sp o, okc (mut_class st sp o).
@@ -692,49 +706,3 @@ Proof.
     unfold okc. repeat match goal with |- context [if ?b then _ else _] => destruct b end; lia.
 Qed.
 
-(** ** snapshot_outside_K (all read kinds except expand, which is treated in ProofsExpand.v) *)
-Definition c01_history (ops : list op) : bool :=
-  forallb (fun o => match o with Read _ k => c01_kind k | _ => true end) ops.
-
-(** every verdict of a history carries a class: 1..6 for a read, 11..16 for the read of a write statement *)
-Lemma verdicts_classified : forall ops st sp i, inv st -> paired st sp -> c01_history ops = true ->
-  forall p c, In (p, c) (verdicts st sp i ops (map canon (snd (run_from st ops)))) ->
-  1 <= c <= 6 \/ 11 <= c <= 16.
-Proof.
-  induction ops as [|o r IH]; intros st sp i Hi Hp Hh p c Hin; [contradiction|].
-  rewrite run_from_cons in Hin. cbn [snd map verdicts] in Hin.
-  cbn [c01_history forallb] in Hh. apply andb_true_iff in Hh. destruct Hh as [Hk Hh].
-  pose proof (inv_step st o Hi) as Hi'. pose proof (paired_step st sp o Hi Hp) as Hp'.
-  pose proof (mut_class_okc st sp o) as Hm. unfold okc in Hm.
-  destruct o as [s|s|s|s|s ls ps|s m id dt|s a b ty|s ma mb a b ty|x|s m id key v|s m id key|s m id l|s m id l|s tr|s tr|n|n key v|n key|n l|n l|s k];
-    try (match type of Hin with
-         | In _ (if ?c0 =? 0 then _ else _) =>
-             destruct (Z.eqb_spec c0 0) as [E|E];
-             [eapply (IH _ _ _ Hi' Hp' Hh); exact Hin
-             |cbn [In] in Hin; destruct Hin as [Hin|[]]; assert (Hc : c = c0 + 10) by congruence; lia]
-         end).
-  (* Read *)
-  cbn [step fst snd] in *.
-  destruct (out_eqb (spec_expected sp s k) (canon (read st s k))) eqn:E.
-  - eapply (IH _ _ _ Hi' Hp' Hh). exact Hin.
-  - destruct Hin as [Hin|Hin].
-    + injection Hin as _ <-. pose proof (classify_read_okc st sp s k) as Hc. unfold okc in Hc.
-      destruct (Z.eq_dec (classify_read st sp s k) 0) as [C|C]; [|lia].
-      rewrite (read_class_total st sp s k Hp Hk C) in E. discriminate.
-    + eapply (IH _ _ _ Hi' Hp' Hh). exact Hin.
-Qed.
-
-Lemma snapshot_outside_K_noexpand_l : forall ops, c01_history ops = true ->
-  (forall c, 1 <= c <= 6 -> c01_k c ops (mrun ops) = false) -> snapshot_ok ops (mrun ops) = true.
-Proof.
-  intros ops Hh Hk. unfold snapshot_ok. apply (verdicts_nil ops init sinit 0).
-  destruct (verdicts init sinit 0 ops (mrun ops)) as [|[p c] rest] eqn:E; [reflexivity|exfalso].
-  assert (Hin : In (p, c) (verdicts init sinit 0 ops (map canon (snd (run_from init ops))))).
-  { change (map canon (snd (run_from init ops))) with (mrun ops). rewrite E. left. reflexivity. }
-  destruct (verdicts_classified ops init sinit 0 inv_init paired_init Hh p c Hin) as [Hc|Hc].
-  - specialize (Hk c Hc). unfold c01_k, c01_fails in Hk. rewrite E in Hk. cbn [existsb snd] in Hk.
-    rewrite Z.eqb_refl in Hk. discriminate.
-  - assert (Hc' : 1 <= c - 10 <= 6) by lia. specialize (Hk (c - 10) Hc'). unfold c01_k, c01_fails in Hk.
-    rewrite E in Hk. cbn [existsb snd] in Hk.
-    replace (c - 10 + 10) with c in Hk by lia. rewrite Z.eqb_refl, orb_true_r in Hk. discriminate.
-Qed.
